@@ -38,7 +38,7 @@ Holds(c, T, e) ==
   CASE c = "C14_Delivery" ->
          \A w \in 1..NW(T) : DeliveredOK(Kind(T, w), e.obs[w], x2[w])
     [] c = "C14_Others" ->        \* a writer that is not registered receives nothing
-         e.act = "write" => \A w \in 1..NW(T) : (w \notin RangeOf(reg) /\ Kind(T, w) # "path") => e.obs[w] = pobs[w]
+         e.act = "write" => \A w \in 1..NW(T) : (w \notin RangeOf(reg) /\ Kind(T, w) \notin {"path", "ufile"}) => e.obs[w] = pobs[w]
     [] c = "C14_Flush" ->
          e.act \in {"flush", "teardown"} => \A w \in RangeOf(reg) : FlushedOK(e.obs[w], x2[w])
     [] c = "C14_Teardown" ->
